@@ -89,22 +89,40 @@ def parse_frombuf(path, fn):
         _err(path, s2, "frombuf: expected if obj.is_visor:")
     fields = []
     for st in s2.body:
-        ok = (isinstance(st, ast.Assign) and len(st.targets) == 1 and _attr_of(st.targets[0], "obj")
-              and isinstance(st.value, ast.Subscript) and isinstance(st.value.slice, ast.Constant) and st.value.slice.value == 0
-              and isinstance(st.value.value, ast.Call) and isinstance(st.value.value.func, ast.Attribute)
-              and _is_name(st.value.value.func.value, "struct") and st.value.value.func.attr == "unpack"
-              and len(st.value.value.args) == 2 and not st.value.value.keywords
-              and isinstance(st.value.value.args[0], ast.Constant) and isinstance(st.value.value.args[0].value, str))
-        if not ok:
-            _err(path, st, "frombuf: expected obj.<field> = struct.unpack('<fmt>', buf[a:b])[0]")
-        fmt = st.value.value.args[0].value
-        a, b = _slice_bounds(path, st.value.value.args[1], "buf")
-        if len(fmt) != 2 or fmt[0] not in "<>" or fmt[1] not in FMT:
-            _err(path, st, f"unsupported struct format {fmt!r}")
-        width, signed = FMT[fmt[1]]
-        if struct.calcsize(fmt) != width:
-            _err(path, st, "format width")
-        fields.append((_attr_of(st.targets[0], "obj"), a, b, width, signed, fmt[0] == ">"))
+        if not (isinstance(st, ast.Assign) and len(st.targets) == 1 and _attr_of(st.targets[0], "obj")):
+            _err(path, st, "frombuf: expected obj.<field> = <integer field of buf>")
+        v = st.value
+        # struct.unpack('<fmt>', buf[a:b])[0]
+        if (isinstance(v, ast.Subscript) and isinstance(v.slice, ast.Constant) and v.slice.value == 0
+                and isinstance(v.value, ast.Call) and isinstance(v.value.func, ast.Attribute)
+                and _is_name(v.value.func.value, "struct") and v.value.func.attr == "unpack"
+                and len(v.value.args) == 2 and not v.value.keywords
+                and isinstance(v.value.args[0], ast.Constant) and isinstance(v.value.args[0].value, str)):
+            fmt = v.value.args[0].value
+            a, b = _slice_bounds(path, v.value.args[1], "buf")
+            if len(fmt) != 2 or fmt[0] not in "<>" or fmt[1] not in FMT:
+                _err(path, st, f"unsupported struct format {fmt!r}")
+            width, signed = FMT[fmt[1]]
+            if struct.calcsize(fmt) != width:
+                _err(path, st, "format width")
+            big = fmt[0] == ">"
+        # int.from_bytes(buf[a:b], "little" | "big"[, signed=...]): the same field, spelled without struct
+        elif (isinstance(v, ast.Call) and isinstance(v.func, ast.Attribute) and _is_name(v.func.value, "int")
+                and v.func.attr == "from_bytes" and 1 <= len(v.args) <= 2):
+            a, b = _slice_bounds(path, v.args[0], "buf")
+            kw = {k.arg: k.value for k in v.keywords}
+            order = v.args[1] if len(v.args) == 2 else kw.get("byteorder")
+            if not (isinstance(order, ast.Constant) and order.value in ("little", "big")):
+                _err(path, st, "int.from_bytes: byte order is not a literal")
+            sg = kw.get("signed")
+            if sg is not None and not (isinstance(sg, ast.Constant) and isinstance(sg.value, bool)):
+                _err(path, st, "int.from_bytes: signed is not a literal")
+            width, signed, big = b - a, bool(sg.value) if sg is not None else False, order.value == "big"
+            if width not in (1, 2, 4, 8):
+                _err(path, st, f"int.from_bytes over {width} bytes")
+        else:
+            _err(path, st, "frombuf: expected obj.<field> = struct.unpack('<fmt>', buf[a:b])[0] or int.from_bytes(buf[a:b], order)")
+        fields.append((_attr_of(st.targets[0], "obj"), a, b, width, signed, big))
     none_fields = []
     for st in s2.orelse:
         if not (isinstance(st, ast.Assign) and len(st.targets) == 1 and _attr_of(st.targets[0], "obj")
